@@ -33,3 +33,79 @@ def render_tokens(toks, mode='spaced'):
         pos += len(s)
         prev = t
     return ''.join(out), offs
+
+
+# ---------------------------------------------------------------------------------------------
+# AST (spec/JaqalSem.tla records as Python dicts) -> Jaqal text
+
+def r_ix(x):
+    k = x['k']
+    if k == 'num':
+        return x['v']
+    if k in ('let', 'param', 'id', 'reg', 'qalias'):
+        return x['v']
+    if k == 'none':
+        return ''
+    raise ValueError(x)
+
+
+def r_arg(a):
+    if a['k'] == 'qubit':
+        return '%s[%s]' % (a['base']['v'], r_ix(a['idx']))
+    return r_ix(a)
+
+
+def r_stmt(s, ind, out, sep='\n'):
+    pad = '  ' * ind
+    if s['k'] == 'gate':
+        out.append(pad + ' '.join([s['v']] + [r_arg(a) for a in s['args']]))
+    elif s['k'] == 'loop':
+        b = s['body']
+        out.append(pad + 'loop %s %s' % (r_ix(s['count']), '<' if b['par'] else '{'))
+        for x in b['body']:
+            r_stmt(x, ind + 1, out)
+        out.append(pad + ('>' if b['par'] else '}'))
+    elif s['k'] == 'blk':
+        if s['sub']:
+            it = s['iters']
+            head = 'subcircuit ' + ('' if (it['k'] == 'num' and it['cv'] == '1' and it['t'] == 'int') else r_ix(it) + ' ')
+            out.append(pad + head + '{')
+        else:
+            out.append(pad + ('<' if s['par'] else '{'))
+        for x in s['body']:
+            r_stmt(x, ind + 1, out)
+        out.append(pad + ('>' if s['par'] and not s['sub'] else '}'))
+    else:
+        raise ValueError(s)
+
+
+def r_reg(r):
+    if r['k'] == 'reg':
+        return 'register %s[%s]' % (r['v'], r_ix(r['size']))
+    if r['mode'] == 'whole':
+        return 'map %s %s' % (r['v'], r['src'])
+    if r['mode'] == 'index':
+        return 'map %s %s[%s]' % (r['v'], r['src'], r_ix(r['idx']))
+    s = '%s:%s' % (r_ix(r['start']), r_ix(r['stop']))
+    if r['step']['k'] != 'none':
+        s += ':' + r_ix(r['step'])
+    return 'map %s %s[%s]' % (r['v'], r['src'], s)
+
+
+def render_prog(p):
+    out = []
+    for m in p['imports']:
+        out.append('from %s usepulses *' % m)
+    for l in p['lets']:
+        out.append('let %s %s' % (l['v'], r_ix(l['val'])))
+    for r in p['regs']:
+        out.append(r_reg(r))
+    for m in p['macros']:
+        b = m['body']
+        out.append('macro %s %s' % (' '.join([m['v']] + list(m['params'])), '<' if b['par'] else '{'))
+        for x in b['body']:
+            r_stmt(x, 1, out)
+        out.append('>' if b['par'] else '}')
+    for s in p['body']:
+        r_stmt(s, 0, out)
+    return '\n'.join(out) + '\n'
